@@ -10,6 +10,14 @@ CLAIMED = {
    note=TB + "Modelled not verified: _get_EMD_version (hand model written_version, tied by correspondence on real written files). Python ints modelled as Z.",
    technique="Coq proof over source-translated Gallina (lia); translator validated by vm_compute correspondence", ref="5 C20"),
 }
+CLAIMED['C12'] = dict(
+   text="Invariant proof by induction over operation sequences on a forest model that follows the stored _root/_treepath pointers exactly as classes/node.py does: every add/force_add/graft/cut step preserves well-formedness (unique identities, every node of a root's tree stamped with that root and its real path, unrooted nodes childless), conserves the multiset of (identity, kind, name) labels (no node lost or duplicated; cut adds exactly one fresh root), looking up a node's stored path from its root returns that node, forbidden calls fail and failing calls change nothing. The model is tied to the real classes by evaluating ~3000 operation sequences (exhaustive short ones + random up to 25 ops) in Coq against snapshots of the live Python objects, and an independent parent-pointer oracle checks the statement on the real objects after every operation.",
+   note=TB + "PARTIAL: the step theorem's domain excludes a Root as the donor of graft/cut (root donors are exercised by correspondence + oracle only); grafts onto an own descendant are outside the property. Modelled not verified: Python object identity (numeric ids), dict insertion order (lists). Names assumed valid and pairwise distinct as the property quantifies.",
+   technique="Coq invariant proof (structural induction, Permutation of labels) + vm_compute correspondence with live objects", ref="5 C12")
+CLAIMED['C13'] = dict(
+   text="Theorems about the five-way root-metadata merge of _graft as modelled (md_merge): 'no metadata' changes nothing; receiver-only entries always survive; default/copy keep every receiver entry; for each donor entry the result is the shared donor object (default on absent key, overwrite always) or a fresh object with equal content under the same key (copy on absent key, copyover always); graft applies exactly this merge to the receiving root and leaves every other root (the donor's included) untouched; cut is graft onto a fresh empty root. Correspondence: all 64 pairs of key sets over 3 names x 5 options x donor node/root x cut options exhaustively plus random operation sequences, compared with object identities of the live Metadata objects.",
+   note=TB + "Hypotheses: donor root's metadata dict has distinct keys and each Metadata is named like its key (what Node.metadata's setter produces). Object identity of copies is modelled by fresh numeric ids allocated in donor-key order.",
+   technique="Coq proof over assoc-list model of the merge + exhaustive small-scope correspondence", ref="5 C13")
 PENDING = {}
 props = [json.loads(l) for l in open(os.path.join(V, 'properties.jsonl'))]
 checks, na = [], []
